@@ -20,9 +20,9 @@ import (
 	"math/big"
 	mrand "math/rand"
 	"os"
-	"path/filepath"
 	"strings"
 	"sync"
+	"sync/atomic"
 	"testing/fstest"
 	tt "text/template"
 	"time"
@@ -82,6 +82,9 @@ type MsgSpec struct {
 // everything was emitted) it returns an error.
 type Fault struct {
 	After int `json:"after"`
+	// Gate, when set, arms the fault only while *Gate != 0 (lets a check fail one
+	// render of a message and let the next one succeed).
+	Gate *int32 `json:"-"`
 }
 
 var ErrInjected = errors.New("verif: injected producer failure")
@@ -92,22 +95,29 @@ type Env struct {
 	Faults map[string]Fault // "part0", "embed1", "attach0" -> fault
 	Yield  func()           // called by writer/faulted producers between chunks (may be nil)
 	mu     sync.Mutex
-	n      int
 }
 
 func (e *Env) tmpFile(content []byte) (string, error) {
 	e.mu.Lock()
-	defer e.mu.Unlock()
 	if e.Dir == "" {
 		d, err := os.MkdirTemp("", "verif-gen-")
 		if err != nil {
+			e.mu.Unlock()
 			return "", err
 		}
 		e.Dir = d
 	}
-	e.n++
-	p := filepath.Join(e.Dir, fmt.Sprintf("f%06d.bin", e.n))
-	return p, os.WriteFile(p, content, 0o600)
+	dir := e.Dir
+	e.mu.Unlock()
+	f, err := os.CreateTemp(dir, "f*.bin")
+	if err != nil {
+		return "", err
+	}
+	_, err = f.Write(content)
+	if cerr := f.Close(); err == nil {
+		err = cerr
+	}
+	return f.Name(), err
 }
 
 // Cleanup removes the scratch directory.
@@ -124,6 +134,9 @@ func chunkWriter(content []byte, chunk int, fault *Fault, yield func()) func(io.
 	return func(w io.Writer) (int64, error) {
 		var total int64
 		limit := len(content)
+		if fault != nil && fault.Gate != nil && atomic.LoadInt32(fault.Gate) == 0 {
+			fault = nil
+		}
 		if fault != nil && fault.After >= 0 && fault.After < limit {
 			limit = fault.After
 		}
@@ -160,7 +173,13 @@ func wrapFault(orig func(io.Writer) (int64, error), content []byte, fault *Fault
 	if fault == nil {
 		return orig
 	}
-	return chunkWriter(content, 0, fault, yield)
+	faulty := chunkWriter(content, 0, fault, yield)
+	return func(w io.Writer) (int64, error) {
+		if fault.Gate != nil && atomic.LoadInt32(fault.Gate) == 0 {
+			return orig(w) // the library's own producer when the fault is not armed
+		}
+		return faulty(w)
+	}
 }
 
 var tplText = tt.Must(tt.New("t").Parse("{{.}}"))
